@@ -719,7 +719,7 @@ def update_counters(state, style):
         values[-1] = value
 
 
-def is_whitespace(box, _has_non_whitespace=re.compile('\\S').search):
+def is_whitespace(box, _has_non_whitespace=re.compile('[^ \\t\\n\\f\\r]').search):
     """Return True if ``box`` is a TextBox with only whitespace."""
     return isinstance(box, boxes.TextBox) and not _has_non_whitespace(box.text)
 
